@@ -6165,7 +6165,26 @@ func (t *Terminal) Loop() error {
 		t.mutex.Unlock() // Must be unlocked before touching reqBox
 
 		if reload {
-			t.eventBox.Set(EvtSearchNew, *reloadRequest)
+			// The coordinator may not have picked up the previous request yet.
+			// Do not drop the reload command, the new nth or the excluded items
+			// it carries.
+			t.eventBox.Update(EvtSearchNew, func(pending any) any {
+				if prev, ok := pending.(searchRequest); ok {
+					if reloadRequest.command == nil && prev.command != nil {
+						reloadRequest.command = prev.command
+						reloadRequest.environ = prev.environ
+						reloadRequest.sync = prev.sync
+					}
+					if reloadRequest.nth == nil {
+						reloadRequest.nth = prev.nth
+					}
+					if prev.revision.compatible(reloadRequest.revision) {
+						reloadRequest.denylist = append(prev.denylist, reloadRequest.denylist...)
+					}
+					reloadRequest.changed = reloadRequest.changed || prev.changed
+				}
+				return *reloadRequest
+			})
 		}
 		for _, event := range events {
 			t.reqBox.Set(event, nil)
